@@ -52,18 +52,71 @@ def run(e: Engine, rep: Report):
 
 
 def b5(e: Engine, rep: Report):
-    ctx = e.method_ctx(BOUNCE, '_build_message')
+    rctx = e.method_ctx(BOUNCE, '_build_message')
+    rfn = rctx.func.node
+    renvp = rctx.func.params[1]
+    rhp = rctx.func.params[3] if len(rctx.func.params) > 3 else None
+
+    def flattens(fn_node):
+        return [n for n in walk_own(fn_node) if isinstance(n, ast.Assign) and
+                isinstance(n.value, ast.Call) and
+                isinstance(n.value.func, ast.Attribute) and
+                n.value.func.attr == 'flatten']
+    # the function that embeds the original: _build_message itself, or the
+    # helper (possibly a generator of the parts) it hands the envelope to
+    ctx, call = rctx, None
+    if not flattens(rfn):
+        for x in walk_own(rfn):
+            if isinstance(x, ast.Call) and isinstance(x.func, ast.Attribute) \
+                    and isinstance(x.func.value, ast.Name) and \
+                    x.func.value.id == 'self':
+                m = e.p.lookup_method(BOUNCE, x.func.attr)
+                if m is not None and flattens(m.node):
+                    ctx, call = Ctx(m, BOUNCE), x
+                    break
     fn = ctx.func.node
     where = ctx.func.qname
+    rep.functions.add(rctx.func.qname)
     rep.functions.add(where)
-    envp = ctx.func.params[1]
-    fl = [n for n in walk_own(fn) if isinstance(n, ast.Assign) and
-          isinstance(n.value, ast.Call) and
-          isinstance(n.value.func, ast.Attribute) and
-          n.value.func.attr == 'flatten']
+    fl = flattens(fn)
     if not fl:
         rep.error('anchor vanished: flatten() in Bounce._build_message')
         return
+    # the helper's parameters in terms of _build_message's
+    envp, hpn = renvp, rhp
+    if call is not None:
+        pmap = {}
+        prm = ctx.func.params[1:]
+        for i, a0 in enumerate(call.args):
+            if i < len(prm) and isinstance(a0, ast.Name):
+                pmap[prm[i]] = a0.id
+        for k in call.keywords:
+            if k.arg and isinstance(k.value, ast.Name):
+                pmap[k.arg] = k.value.id
+        inv = {v: k for k, v in pmap.items()}
+        envp, hpn = inv.get(renvp), inv.get(rhp)
+        if envp is None or any(
+                isinstance(x, ast.Name) and x.id == renvp and
+                isinstance(x.ctx, ast.Store) for x in ast.walk(rfn)):
+            rep.error('cannot follow the failed message from '
+                      '_build_message into %s' % where)
+            return
+        if ctx.func.is_generator:
+            # the parts it yields are what gets parsed: joined, all of them
+            joined = any(
+                isinstance(x, ast.Call) and
+                isinstance(x.func, ast.Attribute) and x.func.attr == 'join'
+                and x.args and (x.args[0] is call or (
+                    isinstance(x.args[0], ast.Name) and any(
+                        isinstance(a, ast.Assign) and a.value is call and
+                        any(isinstance(t, ast.Name) and
+                            t.id == x.args[0].id for t in a.targets)
+                        for a in walk_own(rfn))))
+                for x in walk_own(rfn))
+            if not joined:
+                rep.error('cannot see how _build_message consumes the parts '
+                          'generated by %s' % where)
+                return
     a = fl[0]
     recv = a.value.func.value
 
@@ -101,12 +154,12 @@ def b5(e: Engine, rep: Report):
               'not reproduced unchanged' % o, loc=ctx.func.loc(a),
               reason='receiver of flatten() is the envelope parameter')
     rep.evaluations += 1
-    mut = e.cg.mutates_param(ctx, envp)
-    rep.check(not mut, 'B5', where,
+    mut = e.cg.mutates_param(rctx, renvp)
+    rep.check(not mut, 'B5', rctx.func.qname,
               'building the bounce does not change the failed message',
               '_build_message (or something it passes the envelope to) '
               'modifies the original envelope before / while embedding it',
-              loc=ctx.func.loc(), reason='no mutation of the parameter')
+              loc=rctx.func.loc(), reason='no mutation of the parameter')
     tg = a.targets[0]
     names = [x.id for x in tg.elts] if isinstance(tg, ast.Tuple) and all(
         isinstance(x, ast.Name) for x in tg.elts) else []
@@ -117,15 +170,25 @@ def b5(e: Engine, rep: Report):
         return
     g = e.build(ctx, raises=lambda b, n, r: set())
     fx = e.facts(g)
-    writes = {nm: [n for n in g.nodes if n.kind == 'call' and
-                   e.call_name(n) == 'write' and n.ast.args and
-                   isinstance(n.ast.args[0], ast.Name) and
-                   n.ast.args[0].id == nm] for nm in names}
+
+    def embedded(n):
+        """the Name node this CFG node embeds into the bounce as it is:
+        payload.write(x), or `yield x` in the generator of the parts"""
+        if n.kind == 'call' and e.call_name(n) == 'write' and n.ast.args \
+                and isinstance(n.ast.args[0], ast.Name):
+            return n.ast.args[0]
+        if n.kind == 'stmt' and isinstance(n.ast, ast.Expr) and \
+                isinstance(n.ast.value, ast.Yield) and \
+                isinstance(n.ast.value.value, ast.Name):
+            return n.ast.value.value
+        return None
+    writes = {nm: [n for n in g.nodes if embedded(n) is not None and
+                   embedded(n).id == nm] for nm in names}
     # any other use of the two values is a transformation
     for nm in names:
         other = [n for n in walk_own(fn) if isinstance(n, ast.Name) and
                  n.id == nm and isinstance(n.ctx, ast.Load) and not any(
-                     w.ast.args[0] is n for w in writes[nm])]
+                     embedded(w) is n for w in writes[nm])]
         rep.evaluations += 1
         rep.check(bool(writes[nm]) and not other, 'B5', where,
                   '`%s` is written as it is' % nm,
@@ -133,9 +196,9 @@ def b5(e: Engine, rep: Report):
                       nm, 'transformed before it is embedded' if other
                       else 'never written into the bounce'),
                   loc=ctx.func.loc(other[0] if other else a),
-                  reason='only use: payload.write(%s)' % nm)
+                  reason='only use: payload.write(%s) / yield' % nm)
     after = dataflow.must_events_after(
-        g, lambda n: ['w:' + n.ast.args[0].id] if any(
+        g, lambda n: ['w:' + embedded(n).id] if any(
             n in ws for ws in writes.values()) else [],
         edge=c07.no_call_exc)
     fnode = [n for n in g.nodes if n.kind == 'stmt' and n.ast is a]
@@ -148,8 +211,7 @@ def b5(e: Engine, rep: Report):
                   'a path through _build_message does not write the '
                   'original header block', loc=fnode[0].loc(),
                   reason='write(%s) on every path' % names[0])
-    hp = '%s#%d' % (ctx.func.params[3], g.entry.frame.id) \
-        if len(ctx.func.params) > 3 else None
+    hp = '%s#%d' % (hpn, g.entry.frame.id) if hpn else None
     for w in writes[names[1]]:
         st = fx.at(w) or frozenset()
         base = (fx.at(fnode[0]) if fnode else None) or frozenset()
@@ -304,22 +366,31 @@ def b3(e: Engine, rep: Report):
         return
     lp = outer[0]
 
-    def is_place(n: Node):
-        if n.kind != 'call' or e.call_name(n) != 'append':
-            return 0
-        recv = ast.unparse(n.ast.func.value)
-        if recv.endswith('.recipients') or recv == 'groups' or \
-                'group' in recv:
-            return 1
-        return 0
-    # creating a group = envelope.copy([rcpt]) + groups.append: count the
-    # groups.append / recipients.append events: exactly one per recipient
+    # the recipient being placed: the loop variable that is not merely an
+    # index (names used only inside subscripts - `replies[i]` - are indexes)
+    tnames = {x.id for x in ast.walk(lp.ast.target)
+              if isinstance(x, ast.Name)}
+
+    def mentions_rcpt(call):
+        idx = set()
+        for a in call.args:
+            for x in ast.walk(a):
+                if isinstance(x, ast.Subscript):
+                    idx |= {id(y) for y in ast.walk(x.slice)}
+        return any(isinstance(x, ast.Name) and x.id in tnames and
+                   id(x) not in idx
+                   for a in call.args for x in ast.walk(a))
+
+    def in_loop(n, loop):
+        return any(sc.kind == 'loop' and sc.ast is loop.ast
+                   for sc in n.scopes)
+    # placing the recipient: X.append(rcpt) / X.append([rcpt]) /
+    # envelope.copy([rcpt]) - exactly one per recipient
     def count(n):
-        if n.kind != 'call' or e.call_name(n) != 'append':
+        if n.kind != 'call' or not in_loop(n, lp) or \
+                e.call_name(n) not in ('append', 'copy', 'add', 'insert'):
             return 0
-        recv = ast.unparse(n.ast.func.value)
-        return 1 if (recv.endswith('.recipients') or recv == 'groups') \
-            else 0
+        return 1 if mentions_rcpt(n.ast) else 0
     counts = common.per_iteration_counts(g, lp, count)
     rep.evaluations += 1
     rep.check(counts == frozenset([1]), 'B3', where,
@@ -327,12 +398,13 @@ def b3(e: Engine, rep: Report):
               'a recipient can be placed in %s groups in one pass: it is '
               'named in no bounce or in several' % sorted(counts),
               loc=lp.loc(), reason='exactly one placement per recipient')
-    # a new group only when no existing reply compared equal
-    news = [n for n in g.nodes if n.kind == 'call' and
-            e.call_name(n) == 'append' and
-            ast.unparse(n.ast.func.value) == 'groups']
+    # a new group only when no existing reply compared equal: the search is
+    # the loop nested in the recipient loop, a creation is a placement
+    # outside it
     inner = [n for n in g.of_kind('iter') if isinstance(n.ast, ast.For) and
-             ast.unparse(n.ast.iter) == 'groups']
+             n is not lp and in_loop(n, lp)]
+    news = [n for n in g.nodes if count(n) and
+            not any(in_loop(n, i) for i in inner)]
     rep.evaluations += 1
     if not news or not inner:
         rep.bad('B3', where, 'groups are keyed by reply equality',
